@@ -163,9 +163,98 @@ func kindDispatches(p *Prog, fn *Func) []kdispatch {
 			if subj, kinds, ok := kindTests(x.Cond); ok {
 				add(subj, x.Pos(), caseOf(x.Pos(), kinds, x.Body.List))
 			}
+			// the dispatch as data: `if h, ok := table[E.Kind()]; ok { h(v) }` with table a map from reflect.Kind
+			// to handler functions, or `if _, ok := table[E.Kind()]; ok { … }` as a membership test
+			if as, ok := x.Init.(*ast.AssignStmt); ok && len(as.Lhs) == 2 && len(as.Rhs) == 1 && ObjOf(info, x.Cond) != nil && ObjOf(info, x.Cond) == ObjOf(info, as.Lhs[1]) {
+				if ie, ok := ast.Unparen(as.Rhs[0]).(*ast.IndexExpr); ok {
+					if subj, ok := isReflectKindCall(info, ie.Index); ok {
+						if tv, isVar := ObjOf(info, ie.X).(*types.Var); isVar {
+							table := kindTable(p, tv)
+							h := ObjOf(info, as.Lhs[0])
+							var keys []string
+							for k := range table {
+								keys = append(keys, k)
+							}
+							sort.Strings(keys)
+							usedAsCallee := false
+							var arg ast.Expr
+							if h != nil {
+								ast.Inspect(x.Body, func(m ast.Node) bool {
+									if c, ok := m.(*ast.CallExpr); ok && ObjOf(info, c.Fun) == h && len(c.Args) >= 1 {
+										usedAsCallee, arg = true, c.Args[0]
+									}
+									return true
+								})
+							}
+							if usedAsCallee {
+								for _, k := range keys {
+									kc := kcase{pos: x.Pos(), kinds: []string{k}, callArgs: map[string]ast.Expr{table[k]: arg}, callee: table[k], arg: arg, allCallees: []string{table[k]}}
+									add(subj, x.Pos(), kc)
+								}
+							} else if len(keys) > 0 {
+								add(subj, x.Pos(), caseOf(x.Pos(), keys, x.Body.List))
+							}
+						}
+					}
+				}
+			}
 		}
 		return true
 	})
+	return out
+}
+
+// kindTable: the entries of a map[reflect.Kind]func(...) variable: kind → name of the handler function, taken
+// from the one composite literal it is given (in its declaration or in an init function).
+func kindTable(p *Prog, v *types.Var) map[string]string {
+	out := map[string]string{}
+	n := 0
+	for _, pkg := range p.All {
+		if pkg.Types != v.Pkg() {
+			continue
+		}
+		info := pkg.TypesInfo
+		take := func(e ast.Expr) {
+			cl, ok := ast.Unparen(e).(*ast.CompositeLit)
+			if !ok {
+				n += 2 // assigned something else: not a fixed table
+				return
+			}
+			n++
+			for _, el := range cl.Elts {
+				if kv, ok := el.(*ast.KeyValueExpr); ok {
+					k := kindName(info, kv.Key)
+					if f, ok := ObjOf(info, kv.Value).(*types.Func); ok && k != "" {
+						out[k] = f.Name()
+					}
+				}
+			}
+		}
+		for _, f := range pkg.Syntax {
+			ast.Inspect(f, func(m ast.Node) bool {
+				switch x := m.(type) {
+				case *ast.ValueSpec:
+					for i, nm := range x.Names {
+						if info.Defs[nm] == v && i < len(x.Values) {
+							take(x.Values[i])
+						}
+					}
+				case *ast.AssignStmt:
+					for i, l := range x.Lhs {
+						if o := ObjOf(info, l); o == v && len(x.Rhs) == len(x.Lhs) {
+							take(x.Rhs[i])
+						} else if ie, ok := ast.Unparen(l).(*ast.IndexExpr); ok && ObjOf(info, ie.X) == v {
+							n += 2 // entries added elsewhere
+						}
+					}
+				}
+				return true
+			})
+		}
+	}
+	if n != 1 {
+		return map[string]string{}
+	}
 	return out
 }
 
